@@ -26,37 +26,41 @@ from props.qtylib import F, Obs
 
 MANIFEST = dict(
     category="proof",
-    text="Machine-checked proof (Coq) over the model of impl PartialEq for Quantity, partial_cmp_preserve_nan and "
-         "the vm.rs comparison opcodes. Exact level: == and the orderings are symmetric under swapping operands and "
-         "decide the order of the physical quantities (C11_eq_sym_exact, C11_ord_sym_exact, C11_ord_exact). For any "
-         "number type: != is the negation of ==, every ordering comparison with a NaN operand is false, and when "
-         "the one-sided ordering is defined exactly one of <, ==, > holds (C11_ne, C11_nan_false, "
-         "C11_trichotomy_f). The order-independence claimed by the property is FALSE of the code under rounding: "
-         "C11_symmetry_refuted exhibits the asymmetry of the one-sided conversion in a rounding arithmetic; the f64 "
-         "witness `40.5 firkin == (40.5 firkin -> long_hundredweight)` is reproduced on every run and reported as "
-         "the open known finding C11-eq-one-sided (C11-ord-one-sided for <,>). All theorems closed under the "
-         "global context.",
+    text="Machine-checked proof (Coq) over the model of Quantity::symmetric_partial_cmp (introduced by the fix of the "
+         "findings C11-eq-one-sided / C11-ord-one-sided: each operand is converted into the other's unit and the two "
+         "comparisons must agree), impl PartialEq/PartialOrd for Quantity, partial_cmp_preserve_nan and the vm.rs "
+         "comparison opcodes. For ANY number type whose partial_cmp is antisymmetric (IEEE doubles; proved for the "
+         "exact instance): a == b equals b == a and `a op b` equals `b flip(op) a` for the four orderings, as results "
+         "including errors (C11_eq_sym, C11_ord_sym); != is the negation of == (C11_ne); every ordering with a NaN "
+         "operand is false (C11_nan_false); when the ordering is defined exactly one of <, ==, > holds "
+         "(C11_trichotomy_f). Exact level: the ordering and == decide the order/equality of the physical quantities "
+         "(C11_ord_exact, C11_eq_exact). All closed under the global context.",
     design_ref="DESIGN.md §6 C11, §7 #8; design/qty.md",
-    note="Trusted: Coq kernel + vm_compute; Qty/Model.v hand port; hook dump/translator; the Python f64 replica of "
-         "convert_to for one-factor units (libm pow(x,1)=x, compiler-rt powi) used only by the known-finding matcher.",
-    technique="Coq proof (exact + structural) + refutation witness + exhaustive unit-pair correspondence",
+    note="Trusted: Coq kernel + vm_compute; Qty/Model.v hand port; hook dump/translator; antisymmetry of f64 partial_cmp is a "
+         "hypothesis of the order-independence theorems; the Python f64 replica of the comparison for one-factor units "
+         "(libm pow(x,1)=x, compiler-rt powi) checks the rounding-level ties.",
+    technique="Coq proof (structural for any number type + exact) + exhaustive unit-pair correspondence",
 )
 
-THEOREMS = ["C11_eq_sym_exact", "C11_ord_sym_exact", "C11_ord_exact", "C11_ne", "C11_nan_false",
-            "C11_trichotomy_f", "C11_symmetry_refuted", "C11_symmetry_full_refuted"]
+THEOREMS = ["C11_eq_sym", "C11_ord_sym", "C11_ne", "C11_nan_false", "C11_trichotomy_f", "C11_ord_exact", "C11_eq_exact"]
 FLIP = {"<": ">", ">": "<", "=": "=", "n": "n", "i": "i"}
 NAN = "7ff8000000000000"
 
 
 def replica_answers(tbl, va, ua, vb, ub):
-    """what the current code computes in f64 for one-factor units: (a==b, b==a, cmp(a,b), cmp(b,a))"""
+    """what the current code (Quantity::symmetric_partial_cmp) computes in f64 for one-factor units:
+    (a==b, b==a, cmp(a,b), cmp(b,a))"""
     def code(x, y):
         if math.isnan(x) or math.isnan(y):
             return "?"
         return "<" if x < y else (">" if x > y else "=")
-    b_in_a = qtylib.replica_convert(tbl, vb, ub, ua)
-    a_in_b = qtylib.replica_convert(tbl, va, ua, ub)
-    return (va == b_in_a, vb == a_in_b, code(va, b_in_a), code(vb, a_in_b))
+
+    def sym(v1, u1, v2, u2):
+        c1 = code(v1, qtylib.replica_convert(tbl, v2, u2, u1))
+        c2 = code(qtylib.replica_convert(tbl, v1, u1, u2), v2)
+        return c1 if c1 == c2 else "="
+    ab, ba = sym(va, ua, vb, ub), sym(vb, ub, va, ua)
+    return (ab == "=", ba == "=", ab, ba)
 
 
 def run(chk):
